@@ -3,6 +3,7 @@
 package main
 
 import (
+	"encoding/json"
 	"fmt"
 	"os"
 	"path/filepath"
@@ -103,7 +104,7 @@ func TestC14(t *testing.T) {
 	rep := vh.NewReport("C14", "path-bearing fields of every route (exhaustive enumeration against the real server, differential oracle)")
 	defer rep.Write()
 	names := c14Names()
-	fields := []string{"data-name", "data-rename", "data-prev", "data-source", "recovery-name", "validate-name", "partials-source", "static-get-path", "static-delete-path", "static-get-source", "static-get-rawpath"}
+	fields := []string{"data-name", "data-rename", "data-prev", "data-rename-2nd-part", "data-prev-2nd-part", "data-source", "recovery-name", "validate-name", "partials-source", "static-get-path", "static-delete-path", "static-get-source", "static-get-rawpath"}
 	var rc c14Case
 	replay := vh.ReplaySpec(&rc)
 	n := 0
@@ -150,7 +151,24 @@ func TestC14(t *testing.T) {
 						fixed := "src"
 						content := "payload bytes"
 						switch field {
-						case "data-name", "data-rename", "data-prev", "data-source":
+						case "data-rename-2nd-part", "data-prev-2nd-part":
+						// one file in two parts; the first part is clean, the part that completes the file
+						// carries the name under test
+						seq++
+						content = fmt.Sprintf("two part payload %d", seq)
+						ren, prev := "", ""
+						if field == "data-rename-2nd-part" {
+							ren = x
+						} else {
+							prev = x
+						}
+						ml, body := dataBody2(fmt.Sprintf("t%d", seq), ren, prev, content)
+						q.Method, q.Path, q.Body = "PUT", "/data?v=1", body
+						q.Headers["X-STS-MetaLen"] = fmt.Sprint(ml)
+						if strings.Contains(x, "|") {
+							q.Headers["X-STS-Sep"] = "|"
+						}
+					case "data-name", "data-rename", "data-prev", "data-source":
 							// a fresh file every time: a repeated name + hash would be discarded as a duplicate
 							seq++
 							content = fmt.Sprintf("payload bytes %d", seq)
@@ -238,7 +256,19 @@ func TestC14(t *testing.T) {
 			}
 		}
 	}
-	rep.Bound = fmt.Sprintf("%d names built from the fragments {a, .., ., empty, %%2e%%2e, a 300-character name} joined by /, //, \\ and a custom separator, with and without a leading separator, up to three fragments, placed in turn in: file name, rename target, predecessor and source of a data request, file name of a data-recovery and of a poll request, source of a partials request, URL path (plain and percent-encoded) of static GET / DELETE, source of a static GET; receiver with and without a list of allowed sources; sandbox with canary files above, next to and inside the receiver's directories and in another source's directories", len(names))
+	rep.Bound = fmt.Sprintf("%d names built from the fragments {a, .., ., empty, %%2e%%2e, a 300-character name} joined by /, //, \\ and a custom separator, with and without a leading separator, up to three fragments, placed in turn in: file name, rename target, predecessor and source of a data request (rename target and predecessor also on the second, completing part of a two-part file), file name of a data-recovery and of a poll request, source of a partials request, URL path (plain and percent-encoded) of static GET / DELETE, source of a static GET; receiver with and without a list of allowed sources; sandbox with canary files above, next to and inside the receiver's directories and in another source's directories", len(names))
+}
+
+// dataBody2: one file in two parts; only the second part carries the rename target / predecessor.
+func dataBody2(name, renamed, prev, content string) (metaLen int, body string) {
+	h := vh.MD5([]byte(content))
+	half := len(content) / 2
+	meta := []map[string]interface{}{
+		{"n": name, "r": "", "p": "", "f": h, "t": "1293753600+5", "s": len(content), "b": 0, "e": half},
+		{"n": name, "r": renamed, "p": prev, "f": h, "t": "1293753600+5", "s": len(content), "b": half, "e": len(content)},
+	}
+	b, _ := json.Marshal(meta)
+	return len(b), string(b) + content
 }
 
 func c14Class(field string) string {
